@@ -46,6 +46,10 @@ def mul_groups(tier, props=("C01", "C09", "C10", "C11", "C12")):
     add("MUL", 3, 20, 70, "view1", "view0", "owned", cutoff=0)
     add("ADDMUL", 2, 70, 66, "view1", "owned", "owned", cutoff=64)
     add("MUL", 12, 12, 12, None, square=True, cutoff=64)
+    add("MUL", 12, 12, 12, "owned", square=True, cutoff=64)   # supplied destination with arbitrary prior content
+    # row-block loop of the cubic kernel: block size 64 only under the sub-domain cache configuration (supporting)
+    add("MUL_NAIVE", 64, 2, 3, None, config="tinyL3", supporting=True)
+    add("MUL_NAIVE", 65, 2, 3, "owned", config="tinyL3", supporting=True)
     add("ADDMUL", 12, 12, 12, "owned", square=True, cutoff=128)
     if tier == "thorough":
         add("MUL_M4RM", 16, 16, 64, None, k=2, config="scalar", timeout=3000, slots=8, mem=40)
